@@ -4,6 +4,7 @@ import (
 	"encoding/hex"
 	"fmt"
 	"strconv"
+	"strings"
 
 	"verif/internal/interp"
 )
@@ -72,10 +73,16 @@ func (d *Digester) Str(label, s string) {
 
 // MethodInfo describes one public method of the receiver struct.
 type MethodInfo struct {
-	Fn    *interp.Func
+	Fn    *interp.Func // nil while the program is released (ProgInfo.Release)
+	Name  string
 	Index int
 	Kinds string // per argument: i s r w
 	Ret   byte   // 's' status, 'i' integer / bool, 'n' nothing
+	// What the driver emitter needs, kept across Release.
+	ArgNames  []string
+	ArgCTypes []string
+	RetSigned bool
+	Coroutine bool
 	// Pre-rendered item labels per argument.
 	lblRI, lblWI, lblClosed, lblWritten, lblSlice []string
 }
@@ -92,7 +99,9 @@ type fieldInfo struct {
 
 // ProgInfo is an accepted program prepared for the C driver.
 type ProgInfo struct {
-	P       *interp.Prog
+	P       *interp.Prog // nil while released; Acquire recompiles it from Src
+	Src     string
+	ID      string // SHA-1 of Src
 	Family  string
 	Tags    map[string]string
 	Pkg     string // C package name, assigned per batch (pNNNNN)
@@ -121,7 +130,7 @@ func cIntType(ty *interp.Type) string {
 
 // Describe prepares an accepted program.
 func Describe(p *interp.Prog, family string, tags map[string]string) *ProgInfo {
-	pi := &ProgInfo{P: p, Family: family, Tags: tags, Recv: p.MainStruct()}
+	pi := &ProgInfo{P: p, Src: p.Src, ID: p.ID, Family: family, Tags: tags, Recv: p.MainStruct()}
 	si := p.Structs[pi.Recv]
 	if si == nil {
 		pi.Unsupported = "no receiver struct"
@@ -131,13 +140,19 @@ func Describe(p *interp.Prog, family string, tags map[string]string) *ProgInfo {
 		if f.Recv != pi.Recv {
 			continue
 		}
-		mi := &MethodInfo{Fn: f, Index: len(pi.Methods)}
+		mi := &MethodInfo{Fn: f, Name: f.Name, Index: len(pi.Methods), Coroutine: f.Effect.Coroutine(), RetSigned: f.Out != nil && f.Out.Signed}
 		n := len(f.Args)
 		if n > 8 {
 			pi.Unsupported = "more than 8 arguments"
 		}
 		mi.lblRI, mi.lblWI, mi.lblClosed, mi.lblWritten, mi.lblSlice = make([]string, n), make([]string, n), make([]string, n), make([]string, n), make([]string, n)
 		for i, a := range f.Args {
+			mi.ArgNames = append(mi.ArgNames, a.Name)
+			ct := ""
+			if a.Typ.K == interp.TInt || a.Typ.K == interp.TBool {
+				ct = cIntType(a.Typ)
+			}
+			mi.ArgCTypes = append(mi.ArgCTypes, ct)
 			switch a.Typ.K {
 			case interp.TInt, interp.TBool:
 				mi.Kinds += "i"
@@ -195,6 +210,34 @@ func Describe(p *interp.Prog, family string, tags map[string]string) *ProgInfo {
 	return pi
 }
 
+// Release drops the checked AST (a compiled program keeps the checker's tables
+// alive: megabytes per program); Acquire brings it back by recompiling Src.
+func (pi *ProgInfo) Release() {
+	pi.P = nil
+	for _, m := range pi.Methods {
+		m.Fn = nil
+	}
+}
+
+// Acquire makes pi.P and the methods' Fn valid again.
+func (pi *ProgInfo) Acquire() error {
+	if pi.P != nil {
+		return nil
+	}
+	p, err := interp.Compile(pi.Src)
+	if err != nil {
+		return err
+	}
+	pi.P = p
+	for _, m := range pi.Methods {
+		m.Fn = p.Funcs[pi.Recv+"."+m.Name]
+		if m.Fn == nil {
+			return fmt.Errorf("method %s disappeared on recompilation", m.Name)
+		}
+	}
+	return nil
+}
+
 // DumpFields folds the receiver field dump.
 func (pi *ProgInfo) DumpFields(d *Digester, obj *interp.Object) {
 	for k := range pi.fields {
@@ -220,7 +263,13 @@ func StatusText(v interp.Value) string {
 
 // Record folds the observable outcome of one public call: result, I/O
 // argument indexes and written bytes, slice argument contents, field dump.
-func (pi *ProgInfo) Record(d *Digester, mi *MethodInfo, res *interp.CallResult, args []interp.Value, obj *interp.Object) {
+//
+// maskRI: the call ended in a suspension in the middle of a multi-byte read.
+// How many of the bytes that were available such a read consumes before it
+// suspends is not specified (the generated C moves them into its scratch word,
+// the ideal semantics leaves them in the buffer; both honour the caller
+// contract "unread bytes are ri .. wi"), so the readers' ri is not compared.
+func (pi *ProgInfo) Record(d *Digester, mi *MethodInfo, res *interp.CallResult, args []interp.Value, obj *interp.Object, maskRI bool) {
 	switch mi.Ret {
 	case 's':
 		d.Str("ret", StatusText(res.Ret))
@@ -231,7 +280,11 @@ func (pi *ProgInfo) Record(d *Digester, mi *MethodInfo, res *interp.CallResult, 
 		switch mi.Kinds[i] {
 		case 'r', 'w':
 			b := a.IO
-			d.Int(mi.lblRI[i], uint64(b.RI))
+			if maskRI && mi.Kinds[i] == 'r' {
+				d.Int(mi.lblRI[i], ^uint64(0))
+			} else {
+				d.Int(mi.lblRI[i], uint64(b.RI))
+			}
 			d.Int(mi.lblWI[i], uint64(b.WI))
 			c := uint64(0)
 			if b.Closed {
@@ -250,4 +303,27 @@ func (pi *ProgInfo) Record(d *Digester, mi *MethodInfo, res *interp.CallResult, 
 		}
 	}
 	pi.DumpFields(d, obj)
+}
+
+// PartialRead reports whether a call that just suspended is parked inside a
+// multi-byte read with some (but not enough) source bytes available.
+func PartialRead(p *interp.Prog, obj *interp.Object, args []interp.Value) bool {
+	multi := false
+	for _, ln := range obj.SuspendedSites() {
+		if ln >= 1 && ln <= len(p.Lines) {
+			k := SuspensionKind(p.Lines[ln-1])
+			if strings.HasPrefix(k, "read_u") && k != "read_u8?" && !strings.HasPrefix(k, "read_u8_as") {
+				multi = true
+			}
+		}
+	}
+	if !multi {
+		return false
+	}
+	for _, a := range args {
+		if a.K == interp.VIO && a.IO != nil && !a.IO.Writer && a.IO.RI < a.IO.WI {
+			return true
+		}
+	}
+	return false
 }
